@@ -17,6 +17,7 @@ REQ = {"G": b"/d\r\n", "GP": b"/d\t+\r\n", "GD": b"/d\t$\r\n", "H": b"GET /d HTT
 class CacheWorld:
     def __init__(self, handlers="default"):
         self.w = World(handlers=handlers)
+        self.umn = handlers == "default"       # UMN.UMNDirHandler serves directories: link files are merged
         self.cachefile = self.w.config.get("handlers.dir.DirHandler", "cachefile")
         self.dpath = self.w.path("d")
         self.cpath = os.path.join(self.dpath, self.cachefile)
@@ -43,6 +44,10 @@ class CacheWorld:
                 self._put(n, v)
         for i in range(filler):          # fixed extra entries (bigger cache files); checked by alpha
             self.w.write("d/zfill-%02d.txt" % i, b"filler %d\n" % i)
+        if self.umn:
+            # a UMN link file: the listing depends on the merge-and-sort step, whether regenerated after a miss,
+            # after a failed load, or served from the cache (fixed extra entry, checked by alpha like the filler)
+            self.w.write("d/.Links", b"Name=zfill-zlink\nType=1\nPath=/elsewhere\nHost=other.example\nPort=7070\n")
         self.virtualize_times()
 
     def _put(self, n, v):
@@ -115,7 +120,8 @@ class CacheWorld:
             ok = False
         fill = [e for e in view if e["n"].startswith("zfill-")]
         view = [e for e in view if not e["n"].startswith("zfill-")]
-        if ok and [e["n"][:8] for e in fill] != ["zfill-%02d" % i for i in range(getattr(self, "filler", 0))]:
+        want = ["zfill-%02d" % i for i in range(getattr(self, "filler", 0))] + (["zfill-zl"] if self.umn else [])
+        if ok and [e["n"][:8] for e in fill] != want:
             view.append({"n": "?filler", "v": "none", "mt": "na", "sz": "na"})       # wrong filler entries: not a faithful listing
         ev = {"ev": "request", "p": p, "view": view, "listed": self.listed > 0, "rewritten": rewritten, "ok": ok}
         extra = {"raw": r.out[:600].decode("latin-1"), "log": r.log[-3:], "escaped": r.escaped,
